@@ -112,7 +112,7 @@ def rule_bc(ctx, R):
                 ctx.note("lambda flows into %s" % cb.path)
     ctx.ob("C12-b", "the quantile's Ok payload is passed to a sampling kernel (momentum map)", lam_uses >= 1, fn, "lambda-used-by-momenta",
            where=pat.where(t))
-    md = list(pat.aggregates(s, "Metadata"))
+    md = list(common.built_structs(ctx.facts, R, s, "Metadata"))
     for bj, sj, st in md:
         rv = st["rv"]
         if "lambda" in rv["fields"]:
